@@ -158,7 +158,16 @@ func plugin(t *testing.T, base, maxShare int) *cpumem.Plugin {
 
 const deadline = 2 * time.Second
 
+// runCase runs the case under a 2 s deadline; a timeout is confirmed by re-running the case alone
+// with a longer deadline (embedded etcd or the Go runtime can stall when the machine is loaded).
 func runCase(t *testing.T, k *kase) {
+	runOnce(t, k, deadline)
+	if _, ok := k.Impl["timeout"]; ok {
+		runOnce(t, k, 5*deadline)
+	}
+}
+
+func runOnce(t *testing.T, k *kase, deadline time.Duration) {
 	ctx := context.Background()
 	var res map[string]any
 	var p *cpumem.Plugin
